@@ -63,6 +63,42 @@ Section I.
           apply in_or_app. right. left. reflexivity.
   Qed.
 
+  (* ... and every entry the constructor puts on a list is a square holding that piece, once *)
+  Lemma fold_place_sound b L : NoDup L -> forall ls kb cb, length ls = 13%nat -> (forall sq, In sq L -> nthd b sq 0 < 13) ->
+    (forall pc, 1 <= pc <= 12 -> NoDup (nthd ls pc []) /\ forall sq, In sq (nthd ls pc []) -> ~ In sq L /\ nthd b sq 0 = pc) ->
+    let ls' := fst (fst (fold_left (place_fn b) L (ls, kb, cb))) in
+    forall pc, 1 <= pc <= 12 -> NoDup (nthd ls' pc []) /\
+      forall sq, In sq (nthd ls' pc []) -> nthd b sq 0 = pc /\ (In sq L \/ In sq (nthd ls pc [])).
+  Proof.
+    induction L as [|h t IH]; intros Hnd ls kb cb Hl Hc Hinv; cbn [fold_left].
+    - cbn [fst]. intros pc Hpc. destruct (Hinv pc Hpc) as [A B]. split; [exact A|]. intros sq Hin. destruct (B sq Hin) as [_ E]. split; [exact E|right; exact Hin].
+    - inversion Hnd as [|? ? Hh Ht]; subst.
+      assert (Hc' : forall sq, In sq t -> nthd b sq 0 < 13) by (intros sq Hin; apply Hc; right; exact Hin).
+      rewrite place_fn_eq. destruct (nthd b h 0 =? 0) eqn:E0.
+      + assert (Hinv' : forall pc, 1 <= pc <= 12 -> NoDup (nthd ls pc []) /\ forall sq, In sq (nthd ls pc []) -> ~ In sq t /\ nthd b sq 0 = pc).
+        { intros pc Hpc. destruct (Hinv pc Hpc) as [A B]. split; [exact A|]. intros sq Hin. destruct (B sq Hin) as [X Y]. split; [intro Z; apply X; right; exact Z|exact Y]. }
+        pose proof (IH Ht ls kb cb Hl Hc' Hinv') as R. cbv zeta in R |- *. intros pc Hpc. destruct (R pc Hpc) as [A B]. split; [exact A|].
+        intros sq Hin. destruct (B sq Hin) as [X [Y|Y]]; (split; [exact X|]); [left; right; exact Y|right; exact Y].
+      + apply N.eqb_neq in E0. set (q := nthd b h 0) in *.
+        assert (Hq : 1 <= q <= 12) by (pose proof (Hc h (or_introl eq_refl)); fold q in H; lia).
+        set (ls1 := updN ls q (nthd ls q [] ++ [h])).
+        assert (Hl1 : length ls1 = 13%nat) by (unfold ls1; rewrite updN_length; exact Hl).
+        assert (Hinv' : forall pc, 1 <= pc <= 12 -> NoDup (nthd ls1 pc []) /\ forall sq, In sq (nthd ls1 pc []) -> ~ In sq t /\ nthd b sq 0 = pc).
+        { intros pc Hpc. destruct (Hinv pc Hpc) as [A B]. unfold ls1. rewrite nthd_upd_lists by (first [assumption|lia]).
+          destruct (pc =? q) eqn:Eq.
+          - apply N.eqb_eq in Eq. subst pc. split.
+            + apply NoDup_snoc; [exact A|]. intro X. destruct (B h X) as [Y _]. apply Y. left. reflexivity.
+            + intros sq Hin. apply in_app_or in Hin as [Hin|[<-|[]]].
+              * destruct (B sq Hin) as [X Y]. split; [intro Z; apply X; right; exact Z|exact Y].
+              * split; [exact Hh|reflexivity].
+          - split; [exact A|]. intros sq Hin. destruct (B sq Hin) as [X Y]. split; [intro Z; apply X; right; exact Z|exact Y]. }
+        match goal with |- context [fold_left (place_fn b) t (_, ?k, ?c)] => pose proof (IH Ht ls1 k c Hl1 Hc' Hinv') as R end.
+        cbv zeta in R |- *. intros pc Hpc. destruct (R pc Hpc) as [A B]. split; [exact A|].
+        intros sq Hin. destruct (B sq Hin) as [X [Y|Y]]; (split; [exact X|]); [left; right; exact Y|].
+        unfold ls1 in Y. rewrite nthd_upd_lists in Y by (first [assumption|lia]).
+        destruct (pc =? q) eqn:Eq; [|right; exact Y]. apply N.eqb_eq in Eq. rewrite Eq. apply in_app_or in Y as [Y|[<-|[]]]; [right; exact Y|left; left; reflexivity].
+  Qed.
+
   (* XOR sums do not depend on the order of the squares *)
   Lemma SX_perm c b L1 L2 : Permutation L1 L2 -> SX c b L1 = SX c b L2.
   Proof.
@@ -106,7 +142,12 @@ Section I.
                     updN cb (pc_color (nthd b sq 0)) (N.lor (nthd cb (pc_color (nthd b sq 0)) 0) (bit sq)))) with (place_fn b).
     assert (Hc : forall sq, In sq fen_order -> nthd b sq 0 < 13) by (intros sq _; apply codes_of_map).
     pose proof (fold_place b fen_order (repeat [] 13) (repeat 0 7) (repeat 0 2) eq_refl Hc) as HF. cbv zeta in HF.
-    destruct (fold_left (place_fn b) fen_order (repeat [] 13, repeat 0 7, repeat 0 2)) as [[ls kb] cb]. cbn [fst] in HF.
+    assert (Hnd : NoDup fen_order) by (apply (Permutation_NoDup (Permutation_sym fen_order_perm)); apply NoDup_all_squares).
+    assert (Hinit : forall pc, 1 <= pc <= 12 -> NoDup (nthd (repeat [] 13) pc ([] : list N)) /\ forall sq, In sq (nthd (repeat [] 13) pc []) -> ~ In sq fen_order /\ nthd b sq 0 = pc).
+    { intros pc Hpc. assert (Hnil : nthd (repeat [] 13) pc ([] : list N) = []) by (destruct (N12 pc Hpc) as [->|[->|[->|[->|[->|[->|[->|[->|[->|[->|[->| ->]]]]]]]]]]]; reflexivity).
+      rewrite Hnil. split; [constructor|intros sq []]. }
+    pose proof (fold_place_sound b fen_order Hnd (repeat [] 13) (repeat 0 7) (repeat 0 2) eq_refl Hc Hinit) as HS. cbv zeta in HS.
+    destruct (fold_left (place_fn b) fen_order (repeat [] 13, repeat 0 7, repeat 0 2)) as [[ls kb] cb]. cbn [fst] in HF, HS.
     destruct HF as [A [B [C [D F]]]].
     assert (Hpk0 : pk zt (repeat [] 13) = 0) by reflexivity. assert (Hwk0 : wkp zt (repeat [] 13) = 0) by reflexivity.
     rewrite Hpk0, N.lxor_0_l in B. rewrite Hwk0, N.lxor_0_l in C.
@@ -116,7 +157,11 @@ Section I.
     - unfold piece_inv, cover. cbn [set_meta r_board r_lists r_key].
       split; [exact Hb|]. split; [exact A|]. split; [intros sq _; apply codes_of_map|].
       split; [intros sq Hsq Hne; apply F; [|exact Hne]; apply (Permutation_in _ (Permutation_sym fen_order_perm)); apply in_all_squares; exact Hsq|].
-      split; [reflexivity|]. split; [reflexivity|]. split; [exact B|exact C].
+      split; [reflexivity|]. split; [reflexivity|]. split; [exact B|]. split; [exact C|].
+      intros pc Hpc. destruct (HS pc Hpc) as [S1 S2]. split; [exact S1|]. intros sq Hin. destruct (S2 sq Hin) as [E [X|X]].
+      + split; [|exact E]. apply in_all_squares. apply (Permutation_in _ fen_order_perm). exact X.
+      + exfalso. assert (Hnil : nthd (repeat [] 13) pc ([] : list N) = []) by (destruct (N12 pc Hpc) as [->|[->|[->|[->|[->|[->|[->|[->|[->|[->|[->| ->]]]]]]]]]]]; reflexivity).
+        rewrite Hnil in X. destruct X.
     - unfold scalar_inv. cbn [set_meta r_key r_ep r_castling r_side scratch_key k_ep k_castling k_color]. repeat split; reflexivity.
   Qed.
 
